@@ -275,11 +275,17 @@ def run_property(pid, tier, seed):
         keys = sorted(set(rp.values())) if isinstance(rp, dict) else [rp]
         crosscheck = {'bounds': {k: props.REPLAY_BOUNDS.get(k, '') for k in keys}}
         for key in keys:
-            try:
-                cex, slog = run_replay_search(key, {'name': 'bounded-crosscheck', 'function': 'prop:' + pid}, seed)
-            except Exception as e:
-                cex, slog = None, 'replay search failed to run: %r' % (e,)
-            crosscheck[key] = slog.strip().split('\n')[-1][:200] if slog else ''
+            cex, logs = None, []
+            # five enumerator runs with seeds derived from VERIF_SEED (the random part of every enumerator is seeded)
+            for rs in [seed * 31 + k * 7919 + 1 for k in range(5)]:
+                try:
+                    cex, slog = run_replay_search(key, {'name': 'bounded-crosscheck', 'function': 'prop:' + pid}, rs)
+                except Exception as e:
+                    cex, slog = None, 'replay search failed to run: %r' % (e,)
+                logs.append('seed %d: %s' % (rs, slog.strip().split('\n')[-1][:160] if slog else ''))
+                if cex:
+                    break
+            crosscheck[key] = logs
             if cex:
                 f = {'name': 'bounded-crosscheck::%s' % key, 'unit': 'replay', 'function': key, 'kind': 'bounded cross-check on the real code', 'clause': None, 'site': None,
                      'rendered': 'the replay enumerator found a failing input on the real code although every obligation was discharged: a trusted stub or an extraction rule misrepresents the code', 'property': pid}
